@@ -297,8 +297,9 @@ func (index *uniqueIndex) Label() string {
 }
 
 func (index *uniqueIndex) Read(tx *bbolt.Tx, val []byte) []byte {
-	indexBucket := index.getIndexBucket(tx)
-	if indexBucket.Err != nil {
+	// reading does not create the index bucket
+	indexBucket := Path(tx, index.indexPath...)
+	if indexBucket == nil || indexBucket.Err != nil {
 		return nil
 	}
 	return indexBucket.Get(val)
@@ -387,10 +388,17 @@ func nextAfter(cursor *bbolt.Cursor, key []byte) ([]byte, []byte) {
 
 func (index *uniqueIndex) CheckIntegrity(ctx MutateContext, fix bool, errorSink func(error, bool)) error {
 	tx := ctx.Tx()
-	indexBucket := index.getIndexBucket(tx)
-	cursor := indexBucket.Cursor()
 	store := index.symbol.GetStore()
-	for key, val := cursor.First(); key != nil; key, val = nextAfter(cursor, key) {
+	// a missing index bucket is not created here: a check-only run changes nothing and may run in a read-only
+	// transaction. It holds no entries to check; every value is then reported as missing by the second pass, and
+	// the bucket comes back with the first one that is repaired
+	var cursor *bbolt.Cursor
+	var key, val []byte
+	if indexBucket := Path(tx, index.indexPath...); indexBucket != nil {
+		cursor = indexBucket.Cursor()
+		key, val = cursor.First()
+	}
+	for ; key != nil; key, val = nextAfter(cursor, key) {
 		if !store.IsEntityPresent(tx, string(val)) {
 			if fix {
 				if err := cursor.Delete(); err != nil {
